@@ -236,7 +236,7 @@ def callee_paths(c):
 class Program:
     """A set of crates loaded together; bodies indexed by generic-free path."""
 
-    def __init__(self, pkgs, log=None, repo=None):
+    def __init__(self, pkgs, log=None, repo=None, variant=""):
         self.crates = {}
         self.bodies = []
         self.by_key = defaultdict(list)
@@ -249,7 +249,7 @@ class Program:
         self._tail_index = None
         self._crate_names = set()
         for p in pkgs:
-            data = F.load(p, repo=repo, log=log)
+            data = F.load(p, repo=repo, log=log, variant=variant)
             self.crates[p] = data
             self._crate_names.add(data.get("crate", p))
             if data.get("missing"):
